@@ -9,7 +9,9 @@
 EXTENDS CoapWire
 Verdict(w) == DecUDP(w).ok
 \* a reply the endpoint may emit in reaction to a malformed datagram: a Reset, or an error response
-ReplyAllowedForMalformed(ty, code) == ty = 3 \/ code >= 128
+\* (a REQUEST the endpoint emits is no reply at all: the retransmission of a client's own outstanding request may fall into the window)
+IsOwnRequest(code) == code >= 1 /\ code <= 31
+ReplyAllowedForMalformed(ty, code) == ty = 3 \/ code >= 128 \/ IsOwnRequest(code)
 \* RFC 7252 section 3: messages with unknown version numbers MUST be silently ignored; so must runts
 SilentlyIgnored(w) == Len(w) < 4 \/ (w[1] < 256 /\ w[1] \div 64 # 1)
 \* an application handler may run only for something that is a message
